@@ -8,6 +8,7 @@ ST = "storage::stream::Stream::"
 CG = "storage::consumer_groups::ConsumerGroup::"
 PEL = "storage::consumer_groups::PendingEntryList::"
 ENTRIES = "storage::stream::StreamData.entries"
+SEQ = r"(?:Vec|VecDeque)::<storage::stream::StreamEntry>::"
 LAST_ID = "storage::stream::StreamData.last_id"
 ATOMS = ("storage::stream::Stream.last_id_millis", "storage::stream::Stream.last_id_seq")
 
@@ -26,7 +27,7 @@ def rule_guard(ctx, R):
     """XADD with an explicit ID: the append is dominated by the refusal test against last_id and
     its refuse edge does not reach the append"""
     b = ctx.prog.need(SD + "add_with_id")
-    pushes = recv_calls(b, ENTRIES, r"Vec::<storage::stream::StreamEntry>::(push|insert)$")
+    pushes = recv_calls(b, ENTRIES, SEQ + r"(push|push_back|insert)$")
     R.floor("explicit_id_appends", len(pushes))
     cmps = []
     for i, t in b.calls():
@@ -58,7 +59,7 @@ def rule_guard(ctx, R):
     # nothing is written before the refusal: the refuse edges reach no store to the stream
     for (c, s_, acc, rej) in cmps:
         reg = cfg.fwd(b, [rej]) - cfg.fwd(b, [acc])
-        bad = [x for x in reg if b.term(x)["k"] == "call" and re.search(r"fetch_add|::store$|Vec::<.*>::push", b.term(x)["f"] or "")]
+        bad = [x for x in reg if b.term(x)["k"] == "call" and re.search(r"fetch_add|::store$|(Vec|VecDeque)::<.*>::(push|push_back)", b.term(x)["f"] or "")]
         R.inst(b.fn, "refusal-edge", {"effects": len(bad)})
         if bad:
             R.finding(b.fn, "refusal-edge:has-effect", "the refusal of a too-small ID has an effect on the stream", b.loc(bad[0]))
@@ -119,8 +120,8 @@ def rule_st_pair(ctx, R):
     for fn, b in sorted(ctx.prog.bodies.items()):
         if not (fn.startswith(SD) or fn.startswith(ST)) or b.kind == "Closure" or "::tests::" in fn:
             continue
-        grow = recv_calls(b, ENTRIES, r"Vec::<storage::stream::StreamEntry>::(push|insert|extend|append)")
-        shrink = recv_calls(b, ENTRIES, r"Vec::<storage::stream::StreamEntry>::(remove|drain|clear|retain|truncate|pop|swap_remove|split_off)")
+        grow = recv_calls(b, ENTRIES, SEQ + r"(push|push_back|push_front|insert|extend|append)")
+        shrink = recv_calls(b, ENTRIES, SEQ + r"(remove|drain|clear|retain|truncate|pop|pop_front|pop_back|swap_remove|swap_remove_back|swap_remove_front|split_off)")
         if not grow and not shrink:
             continue
         lens = []
@@ -457,8 +458,8 @@ def rule_st_amount(ctx, R):
     for fn, b in sorted(ctx.prog.bodies.items()):
         if not (fn.startswith(SD) or fn.startswith(ST)) or b.kind == "Closure" or "::tests::" in fn:
             continue
-        removals = recv_calls(b, ENTRIES, r"Vec::<storage::stream::StreamEntry>::(remove|pop|swap_remove)$")
-        drains = recv_calls(b, ENTRIES, r"Vec::<storage::stream::StreamEntry>::drain(::<.*>)?$")
+        removals = recv_calls(b, ENTRIES, SEQ + r"(remove|pop|pop_front|pop_back|swap_remove|swap_remove_back|swap_remove_front)$")
+        drains = recv_calls(b, ENTRIES, SEQ + r"drain(::<.*>)?$")
         for i, t in b.calls():
             if not re.search(r"atomic::Atomic::<usize>::fetch_sub$", t["f"] or "") or len(t["a"]) < 2:
                 continue
@@ -500,7 +501,7 @@ def rule_st_amount(ctx, R):
                         if src and src["k"] == "bin" and src["op"].startswith("Sub"):
                             PA = prov.operand_origins(b, src["a"]) if not op_is_const(src["a"]) else None
                             PB = prov.operand_origins(b, src["b"]) if not op_is_const(src["b"]) else None
-                            if PA and PB and PA.has_call(r"Vec::<storage::stream::StreamEntry>::len$") and PB.has_call(r"Vec::<storage::stream::StreamEntry>::len$"):
+                            if PA and PB and PA.has_call(SEQ + r"len$") and PB.has_call(SEQ + r"len$"):
                                 ok = True; why = "difference of the vector's length"
             R.inst(fn, "length-decrement", {"function": fn, "at": b.loc(i), "amount_is_number_really_removed": ok, "why": why})
             if not ok:
